@@ -410,7 +410,7 @@ pub fn case_strategy() -> BoxedStrategy<AiCase> {
         // text that looks like the placeholders of a prompt template
         1 => Just("f\"CONDITION: {condition} / BLOCK: {block}\" {} {0} %s ${content}".to_string()),
     ];
-    let block = (text.clone(), proptest::collection::vec(text, 0..5), proptest::option::weighted(0.3, 0u8..5), 0u8..20, proptest::bool::weighted(0.2), 0u8..3, proptest::bool::weighted(0.15), proptest::bool::weighted(0.25), proptest::bool::weighted(0.2)).prop_map(
+    let block = (text.clone(), proptest::collection::vec(text, 0..5), proptest::option::weighted(0.3, 0u8..(models::KEY_PATS.len() as u8)), 0u8..20, proptest::bool::weighted(0.2), 0u8..3, proptest::bool::weighted(0.15), proptest::bool::weighted(0.25), proptest::bool::weighted(0.2)).prop_map(
         |(condition, lines, pattern, reply, warning, file, multiline_condition, plain_before, twin)| {
             let condition = if condition.trim().is_empty() { "must hold".to_string() } else { condition.replace('"', "'") };
             AiBlock { condition, lines: lines.into_iter().map(|l| l.replace("<block", "<blok").replace("</block", "</blok")).collect(), pattern, reply, warning, file, multiline_condition, plain_before, twin }
